@@ -23,7 +23,7 @@ from typing import Any, Dict, List, Optional, Tuple
 import cli_gen as cg
 import cliside as cs
 import pyside
-from vlib import Broken, Check, run_workers
+from vlib import Broken, Check, cnat, run_workers
 
 LEVEL = "proof"
 ROOT = "root.bitproto"
@@ -33,7 +33,7 @@ def lint_schema(ck: Check, i: int) -> Tuple[cg.Schema, str]:
     rng = random.Random(f"{ck.prop}:{ck.seed}:lint:{i}")
     k = i % 4
     if k == 0:
-        p, tag = cg.Params(n_imports=i % 2, perturb=0.0, perturb_import=0.5, indent_noise=0.0, enum_no_zero=0.0), "conforming"
+        p, tag = cg.Params(n_imports=1 + (i // 4) % 2, nested_import=((i // 8) % 2 == 1), perturb=0.0, perturb_import=0.5, indent_noise=0.0, enum_no_zero=0.0), "conforming"
     elif k == 1:
         p, tag = cg.Params(n_imports=1, perturb=0.4, perturb_import=0.3, enum_no_zero=0.4), "perturbed"
     elif k == 2:
@@ -155,6 +155,9 @@ def run(ck: Check) -> None:
         outs: Dict[Tuple[Optional[str], bool], Dict[str, str]] = {}
         any_w = False
         for r, o in zip(LINT_RUNS, res_["runs"]):
+            if o.get("timeout"):
+                ck.broken(Broken("a CLI run did not finish within 10 minutes", f"{tag} {argv(r, 'out')}"))
+                continue
             stats["lint_runs"] += 1
             ws = [d for d in o["diags"] if d["sev"] == "warning"]
             errs = [d for d in o["diags"] if d["sev"] == "error"]
@@ -200,6 +203,9 @@ def run(ck: Check) -> None:
             ck.broken(Broken("C20 worker failed", res_["worker_error"]))
             continue
         o = res_["runs"][0]
+        if o.get("timeout"):
+            ck.broken(Broken("a CLI run did not finish within 10 minutes", f"err#{ei} {kind}"))
+            continue
         stats["error_cases"] += 1
         stats["error_in_import"] += 1 if fi != 0 else 0
         kinds_seen[kind] = kinds_seen.get(kind, 0) + 1
@@ -264,7 +270,7 @@ def run(ck: Check) -> None:
                 if g["depth"] != d.depth + depth_of.get(fi, 0) or g["token"] != d.name:
                     ck.broken(Broken("scope depth / token of a definition differs from the printer's",
                                      f"{tag} {f.name} {d.name}: depth {g['depth']} vs {d.depth}+{depth_of.get(fi, 0)}, token {g['token']}"))
-                exprs.append(f"(c20_pos_case p{pi}_t{fi} {d.pos} {d.first_pos} {g['lineno']} {g['col']} ({g['indent']}) true)")
+                exprs.append(f"(c20_pos_case p{pi}_t{fi} {cnat(d.pos)} {cnat(d.first_pos)} {g['lineno']} {g['col']} ({g['indent']}) true)")
                 metas.append(("pos", pi, fi, "def", d.name, d.line, d.col, d.indent, g))
             if [(x.token) for x in f.refs] != [x["token"] for x in got["refs"]]:
                 ck.broken(Broken("references recorded by the parser differ from the printer's", f"{tag} {f.name}: "
@@ -272,20 +278,33 @@ def run(ck: Check) -> None:
                 continue
             for x, g in zip(f.refs, got["refs"]):
                 stats["references"] += 1
-                exprs.append(f"(c20_pos_case p{pi}_t{fi} {x.pos} 0 {g['lineno']} {g['col']} 0 false)")
+                exprs.append(f"(c20_pos_case p{pi}_t{fi} {cnat(x.pos)} 0%nat {g['lineno']} {g['col']} 0 false)")
                 metas.append(("pos", pi, fi, "ref", x.token, x.line, x.col, 0, g))
         if model and exprs:
             pos_shards.add(head, exprs, metas)
+        elif not model:
+            # the Coq model does not build: compare recorded positions with the printer's directly
+            for (_, _, fi2, what, name, line, col, indent, g) in metas:
+                rp = {"schema": s.to_json(), "file": s.files[fi2].name, "name": name, "tag": tag,
+                      "expected": {"line": line, "col": col, "indent": indent}, "recorded": g}
+                if g["lineno"] != line:
+                    ck.violation(f"{what} {name}: recorded line {g['lineno']}, it stands on line {line}", rp)
+                if g["col"] != col:
+                    ck.violation(f"{what} {name}: recorded column {g['col']}, it stands in column {col}", rp,
+                                 key="col-line1" if (line == 1 and g["col"] == col - 1) else None)
+                if what == "def" and g["indent"] != indent:
+                    ck.violation(f"{what} {name}: recorded indent {g['indent']}, it is {indent}", rp,
+                                 key="indent-line1" if (line == 1 and g["indent"] == (indent - 1 if indent > 0 else -1)) else None)
 
     # ------------------------------------------------------------------------------------------
     # Coq evaluation
     # ------------------------------------------------------------------------------------------
     if model:
         t3 = time.time()
-        for meta, code in name_shards.run(header=cs.HEADER):
-            if code:
-                ck.broken(Broken("pascal_case / snake_case / isupper: model and utils.py disagree",
-                                 f"name {meta[1]!r}: utils gives {meta[2]}, code {code}"))
+        bad_names = [(meta[1], meta[2], code) for meta, code in name_shards.run(header=cs.HEADER) if code]
+        if bad_names:
+            ck.broken(Broken(f"pascal_case / snake_case / isupper: the model and utils.py disagree on {len(bad_names)} of "
+                             f"{len(names)} names", "; ".join(f"{n!r}: utils gives {row} (bits {c})" for n, row, c in bad_names[:12])))
         for meta, code in lint_shards.run(header=cs.HEADER):
             if not code:
                 continue
@@ -309,7 +328,7 @@ def run(ck: Check) -> None:
             s, tag, in_class = pos_cases[pi]
             replay = {"schema": s.to_json(), "file": s.files[fi].name, "what_kind": what, "name": name, "tag": tag,
                       "expected": {"line": line, "col": col, "indent": indent},
-                      "recorded": {"line": g["lineno"], "col": g["col"], "indent": g["indent"]}, "code": code}
+                      "recorded": {"line": g["lineno"], "col": g["col"], "indent": g.get("indent")}, "code": code}
             if code & (128 | 256):
                 ck.broken(Broken("_get_col / current_indent: translated model and parser disagree", str(replay["recorded"]) + " " + tag))
             if code & 512:
